@@ -456,8 +456,16 @@ impl<'a, 'tcx> T<'a, 'tcx> {
                 o.push(("ty", J::s(ty_s(value.ty))));
                 let vt = value.valtree;
                 if value.ty.peel_refs().is_str() {
-                    if let Some(bytes) = value.try_to_raw_bytes(tcx) {
-                        o.push(("s", J::s(String::from_utf8_lossy(bytes).to_string())));
+                    // `&str` constants and (behind a Deref pattern) bare `str` constants: a branch of u8 leaves
+                    let bytes: Option<Vec<u8>> = value.try_to_branch().and_then(|br| {
+                        br.iter()
+                            .map(|ct| {
+                                (*ct).try_to_value().and_then(|v| v.try_to_leaf().map(|leaf| leaf.to_u8()))
+                            })
+                            .collect::<Option<Vec<u8>>>()
+                    });
+                    if let Some(bytes) = bytes {
+                        o.push(("s", J::s(String::from_utf8_lossy(&bytes).to_string())));
                     }
                 } else if let Some(leaf) = vt.try_to_leaf() {
                     let bits = leaf.to_bits_unchecked();
